@@ -48,6 +48,7 @@ where
         }
     });
     let d = done.load(Ordering::SeqCst);
+    run.trace(&format!("done: {} ({} of {} items)", what, d, items.len()));
     if d < items.len() {
         run.cap_hit(format!(
             "{}: wall-clock budget reached after {} of {} work items",
